@@ -22,3 +22,11 @@ def std_replay(prop, units, doc):
         return 1
     print("does not reproduce on the current tree")
     return 0
+
+
+def keep_tlv_to_string(T):
+    """TLV.to_string is evaluated eagerly for debug logging inside decode_bytearray/encode_list, so it runs as real code;
+    only its two name tables (values used for formatting only) answer a symbolic key with a placeholder"""
+    from symx.rope import FmtDict
+    T.K_TLV_TYPE_NAMES = FmtDict(T.K_TLV_TYPE_NAMES)
+    T.K_TLV_ERROR_NAMES = FmtDict(T.K_TLV_ERROR_NAMES)
